@@ -21,6 +21,11 @@ enum Delay {
     Dyn20_0,
     /// attempt 1 at once, attempt 2 after 20 ms
     Dyn0_20,
+    /// a table that differs at every index: f(1)=20, f(2)=30, f(3)=10, f(4)=0 ms (f(3) and f(4)
+    /// belong to hedges that max_hedged_attempts <= 3 never starts)
+    Dyn20_30_10,
+    /// 19.75 ms: a fractional number of milliseconds
+    Frac,
 }
 
 impl Delay {
@@ -32,6 +37,9 @@ impl Delay {
             Delay::Dyn20_10 => if k == 1 { 20 } else { 10 },
             Delay::Dyn20_0 => if k == 1 { 20 } else { 0 },
             Delay::Dyn0_20 => if k == 1 { 0 } else { 20 },
+            Delay::Dyn20_30_10 => [20, 30, 10, 0][(k - 1).min(3)],
+            // virtual instants are whole milliseconds: a gap g satisfies 19.75 ms iff g >= 20
+            Delay::Frac => 20,
         }
     }
 }
@@ -84,6 +92,7 @@ impl Scenario for Hg {
         let b = match self.delay {
             Delay::Fixed20 => b.delay(Duration::from_millis(20)),
             Delay::Immediate => b.no_delay(),
+            Delay::Frac => b.delay(Duration::from_micros(19_750)),
             d => b.delay_fn(move |k| Duration::from_millis(d.of(k))),
         };
         let layer = b.build();
@@ -283,7 +292,10 @@ impl Scenario for Hg {
 fn configs(tier: Tier) -> Vec<Hg> {
     let mut v = vec![];
     for max in [1usize, 2, 3] {
-        for delay in [Delay::Fixed20, Delay::Immediate, Delay::Dyn20_10, Delay::Dyn20_0, Delay::Dyn0_20] {
+        for delay in [Delay::Fixed20, Delay::Immediate, Delay::Dyn20_10, Delay::Dyn20_0, Delay::Dyn0_20, Delay::Dyn20_30_10, Delay::Frac] {
+            if max < 3 && matches!(delay, Delay::Dyn20_30_10) || max != 2 && matches!(delay, Delay::Frac) {
+                continue;
+            }
             v.push(Hg { max, delay, max_ticks: tier.pick(6, 8), held_readiness: false, late_ticks: 0 });
         }
         if max == 3 {
